@@ -326,6 +326,157 @@ def rule_options(repo: Repo) -> RuleResult:
     return r
 
 
+def _alternatives(e: ast.AST) -> List[ast.AST]:
+    if isinstance(e, ast.IfExp):
+        return _alternatives(e.body) + _alternatives(e.orelse)
+    return [e]
+
+
+TYPED_LIST_SITES = ["DomainExporter.write_action", "Predicate.__str__", "PDDLFunction.__str__", "Action.__str__", "GroundedPredicate.__str__",
+                    "PDDLFunction.state_typed_representation"]
+
+
+def rule_typedparams(repo: Repo, rid: str = "C08.typedparams", sites: Optional[List[str]] = None) -> RuleResult:
+    r = RuleResult(rid, "in a typed list every entry is written as '<name> - <type>' on every alternative (no entry may omit its type)",
+                   "PDDL typed lists are grouped: an entry without '- type' takes the type of the next typed entry")
+    for spec in (sites or TYPED_LIST_SITES):
+        f = repo.func(spec)
+        p = L.prov(repo, f)
+        elems: List[Tuple[ast.AST, ast.AST, Set[str], Set[str]]] = []   # (element expr, anchor, name vars, type-ish marker)
+        for n in ast.walk(f.node):
+            gens = []
+            if isinstance(n, (ast.ListComp, ast.GeneratorExp)):
+                gens = [(n.generators[0], n.elt)]
+            elif isinstance(n, ast.For):
+                for c in L.calls_in(ast.Module(body=n.body, type_ignores=[])):
+                    if isinstance(c.func, ast.Attribute) and c.func.attr == "append" and c.args:
+                        gens.append((n, c.args[0]))
+            for gen, elt in gens:
+                it = p.trace(gen.iter)
+                if any("attr:signature" in x or "attr:grounded_call_objects" in x for x in it):
+                    elems.append((elt, gen))
+        r.site(f.qn)
+        if not elems:
+            raise AnalysisError(f"{spec}: typed-list element template not found")
+        bad = []
+        judged = 0
+        for elt, gen in elems:
+            if not isinstance(elt, ast.IfExp) and T.flatten_template(elt) is None:
+                continue  # not an entry template (e.g. a list of bare names)
+            if not isinstance(elt, ast.IfExp) and not any(isinstance(x, str) for x in (T.flatten_template(elt) or [])):
+                continue
+            judged += 1
+            for alt in _alternatives(elt):
+                parts = T.flatten_template(alt)
+                if parts is None:
+                    bad.append(f"{unparse(alt, 50)} (not a template)")
+                    continue
+                parts = T.merge_literals(parts)
+                holes = [x for x in parts if not isinstance(x, str)]
+                lits = [x for x in parts if isinstance(x, str)]
+                if len(holes) < 2 or not any(" - " in l for l in lits):
+                    bad.append(unparse(alt, 50))
+        if not judged:
+            raise AnalysisError(f"{spec}: typed-list entry template not found")
+        if bad:
+            r.fail(Finding(rid, f, "entry-without-type", f"a typed-list entry can be written without its type: {bad[:2]}; in a grouped typed list it then takes the "
+                           f"type of the following entry"))
+        else:
+            r.ok({"printer": f.qn, "entry": "<name> - <type> on every alternative"})
+    r.require_sites(len(sites or TYPED_LIST_SITES))
+    return r
+
+
+FULL_TEXT = ("attr:untyped_representation", "attr:state_representation", "call:to_pddl", "arg0:str", "call:__str__", "attr:lifted_untyped_representation",
+             "attr:state_typed_representation")
+
+
+def printer_functions(repo: Repo) -> List[FuncInfo]:
+    out = []
+    for f in repo.all_funcs():
+        top = f.mod.short.split(".")[0]
+        if top == "exporters" and not f.name.startswith("__") and "output_parser" not in f.mod.short:
+            out.append(f)
+        elif top == "models" and f.name in ("__str__", "_print_self", "print", "effects_to_pddl", "serialize", "_serialize_predicates", "_serialize_numeric_fluents",
+                                            "typed_serialize", "untyped_representation", "state_representation", "state_typed_representation", "to_pddl", "_convert_to_pddl"):
+            out.append(f)
+        elif top == "multi_agent" and f.name in ("export", "export_to_file", "export_plan"):
+            out.append(f)
+    return out
+
+
+def rule_nocollapse(repo: Repo, rid: str = "C08.nocollapse") -> RuleResult:
+    r = RuleResult(rid, "a printer never funnels the elements of a collection through a dict keyed by a *part* of the element",
+                   "nothing is lost on the way to the text: two different elements with the same partial key would collapse into one")
+    fs = printer_functions(repo)
+    for f in fs:
+        p = L.prov(repo, f)
+        r.site(f.qn)
+        offenders = []
+        cands: List[Tuple[ast.AST, ast.AST, ast.AST]] = []
+        for n in ast.walk(f.node):
+            if isinstance(n, ast.DictComp):
+                cands.append((n.key, n.value, n))
+            elif isinstance(n, ast.Assign) and len(n.targets) == 1 and isinstance(n.targets[0], ast.Subscript) and isinstance(n.targets[0].value, ast.Name):
+                cands.append((n.targets[0].slice, n.value, n))
+        for k, v, anchor in cands:
+            tv = [x for x in p.trace(v) if "elem" in x and x[0] in ("self",) or (x[0].startswith("param:") and "elem" in x)]
+            tk = [x for x in p.trace(k) if "elem" in x and (x[0] == "self" or x[0].startswith("param:"))]
+            if not tv or not tk:
+                continue
+            for kp in tk:
+                i = len(kp) - 1 - kp[::-1].index("elem")
+                pre, post = kp[: i + 1], [s for s in kp[i + 1:] if not s.startswith("unpack:")]
+                same_coll = any(vp[: len(pre)] == pre for vp in tv)
+                if same_coll and post and not any(s in FULL_TEXT for s in post):
+                    offenders.append((unparse(anchor, 70), "/".join(post)))
+        if offenders:
+            r.fail(Finding(rid, f, f"partial-key:{offenders[0][1]}", f"{offenders[0][0]} keys the printed elements by {offenders[0][1]}: elements that agree on that part "
+                           f"overwrite each other and are missing from the text"))
+        else:
+            r.ok({"printer": f.qn, "dict_keyed_by_part_of_element": False})
+    r.require_sites(20)
+    return r
+
+
+def rule_valuetext(repo: Repo, rid: str) -> RuleResult:
+    r = RuleResult(rid, "a fluent's value is written with Python's round-trip float text (no format spec, no rounding)",
+                   "the same fluents with the same values after reading the text back")
+    for spec in ("PDDLFunction.state_representation", "PDDLFunction.state_typed_representation"):
+        f = repo.func(spec)
+        p = L.prov(repo, f)
+        r.site(f.qn)
+        holes = []
+        for js in [n for n in ast.walk(f.node) if isinstance(n, ast.JoinedStr)]:
+            for v in js.values:
+                if isinstance(v, ast.FormattedValue):
+                    tr = p.trace(v.value)
+                    if any(x[0] == "self" and ("attr:stored_value" in x or "attr:value" in x or "call:value" in x) for x in tr):
+                        holes.append((v, tr))
+        if not holes:
+            r.fail(Finding(rid, f, "value-not-printed", f"{spec} does not print the fluent's value"))
+            continue
+        bad = []
+        for v, tr in holes:
+            lossy_steps = [s for x in tr for s in x if s.startswith(("arg0:round", "arg0:int", "arg0:format", "binop:", "call:__format__", "arg0:Decimal", "call:quantize"))]
+            direct = any(x in (("self", "attr:value"), ("self", "attr:stored_value")) for x in tr)
+            if v.format_spec is not None or v.conversion not in (-1, 114, 115) or lossy_steps or not direct:
+                bad.append(unparse(v.value, 40) + (" with format spec" if v.format_spec is not None else "") + (f" via {sorted(set(lossy_steps))}" if lossy_steps else ""))
+        # a property used for the value must itself return the stored value unchanged
+        vp = repo.func_opt("PDDLFunction.value")
+        if vp is not None:
+            pv = L.prov(repo, vp)
+            for ret in L.func_returns(vp):
+                if not all(x == ("self", "attr:stored_value") for x in pv.trace(ret.value)):
+                    bad.append("PDDLFunction.value does not return stored_value unchanged")
+        if bad:
+            r.fail(Finding(rid, f, "lossy-value-text", f"the value is written as {bad[:2]}: values with more digits than the format keeps do not survive the round trip"))
+        else:
+            r.ok({"printer": f.qn, "value": "{self.value} (repr-exact)"})
+    r.require_sites(2)
+    return r
+
+
 def rules(repo: Repo, tier: str) -> List[RuleResult]:
-    return [rule_fields(repo, "C08.fields", FIELD_TABLE), rule_operand_kinds(repo), rule_polarity(repo), rule_keywords(repo),
+    return [rule_fields(repo, "C08.fields", FIELD_TABLE), rule_typedparams(repo), rule_nocollapse(repo), rule_operand_kinds(repo), rule_polarity(repo), rule_keywords(repo),
             rule_balance(repo, "C08.balance", BALANCE_SITES), rule_order(repo), rule_options(repo)]
